@@ -173,8 +173,8 @@ impl AsyncFileSystem for AsyncMemoryFS {
         let entries: Vec<String> = handle
             .files
             .iter()
-            .filter_map(|(candidate_path, _)| {
-                if candidate_path == path {
+            .filter_map(|(candidate_path, candidate)| {
+                if candidate_path == path && candidate.file_type == VfsFileType::Directory {
                     found_directory = true;
                 }
                 if candidate_path.starts_with(&prefix) {
@@ -187,6 +187,9 @@ impl AsyncFileSystem for AsyncMemoryFS {
             })
             .collect();
         if !found_directory {
+            if handle.files.contains_key(path) {
+                return Err(VfsErrorKind::Other("Not a directory".into()).into());
+            }
             return Err(VfsErrorKind::FileNotFound.into());
         }
         Ok(Box::new(futures::stream::iter(entries)))
@@ -229,7 +232,11 @@ impl AsyncFileSystem for AsyncMemoryFS {
     async fn create_file(&self, path: &str) -> VfsResult<Box<dyn Write + Send + Unpin>> {
         self.ensure_has_parent(path).await?;
         let content = Arc::new(Vec::<u8>::new());
-        self.handle.write().await.files.insert(
+        let mut handle = self.handle.write().await;
+        if let Some(existing) = handle.files.get(path) {
+            ensure_file(existing)?;
+        }
+        handle.files.insert(
             path.to_string(),
             AsyncMemoryFile {
                 file_type: VfsFileType::File,
@@ -247,6 +254,7 @@ impl AsyncFileSystem for AsyncMemoryFS {
     async fn append_file(&self, path: &str) -> VfsResult<Box<dyn Write + Send + Unpin>> {
         let handle = self.handle.write().await;
         let file = handle.files.get(path).ok_or(VfsErrorKind::FileNotFound)?;
+        ensure_file(file)?;
         let mut content = Cursor::new(file.content.as_ref().clone());
         content.seek(SeekFrom::End(0)).await?;
         let writer = AsyncWritableFile {
@@ -276,6 +284,7 @@ impl AsyncFileSystem for AsyncMemoryFS {
 
     async fn remove_file(&self, path: &str) -> VfsResult<()> {
         let mut handle = self.handle.write().await;
+        ensure_file(handle.files.get(path).ok_or(VfsErrorKind::FileNotFound)?)?;
         handle
             .files
             .remove(path)
